@@ -21,6 +21,7 @@ RULE = ("cases = (kind, subtype, array, provenance form, accessor); arrays are b
         "with at least one non-inert element; distinct = hash of (kind, subtype, elements, form)")
 ASSUMPTIONS = ["pyarrow to_pylist is a faithful independent read-back of element values",
                "integer coordinates below 2^50 so that float64 bounds are exact"]
+SPLIT_KINDS = True         # thorough tier: one shard per geometry kind
 DECIDING_COUNTERS = ["bounds_rows_checked", "total_bounds_checked"]
 
 
